@@ -73,6 +73,20 @@ CLAIMED["C11"] = dict(
     technique="decision table by abstract MIR path enumeration, compared on a witness catalogue; taint for exactness",
 )
 
+CLAIMED["C01"] = dict(
+    category="other",
+    text=("Only the structural consequences are decided, not the main clause: R1.1 uniform dispatch (every Relate impl is "
+          "GeometryGraph::new(idx, GeometryCow::from(self)); relate() never overridden; GeometryCow::from(&Geometry) identity on variants; "
+          "Rect/Triangle enter the graph as polygons); R1.2 operand-role symmetry of compute_intersection_matrix (the multiset of pipeline "
+          "calls is invariant under (graph_a,0)<->(graph_b,1), joint steps take (a,b) in order) - necessary for relate(b,a) = transpose; "
+          "R1.3 the only early return is the disjoint-envelope shortcut and compute_disjoint's effect table; R1.4 mod-2 tables of "
+          "determine_boundary and insert_boundary_point; R1.5 the segment intersector's decisions are arithmetic-free. "
+          "That noding, labelling and the matrix update compute the true DE-9IM matrix is NOT decided (data-dependent graph)."),
+    design_ref="DESIGN.md §4 C01, §5",
+    note="The undecided core (noding/labelling/update over a data-dependent graph) is assumed; static analysis cannot bound it. Trusted: rustc MIR, symbolic models.",
+    technique="call-sequence symmetry and effect tables by abstract MIR path enumeration",
+)
+
 NOT_YET = "rule set not implemented in this revision of /verif (see DESIGN.md §7 build order); nothing is claimed"
 NA = {}
 
